@@ -13,11 +13,12 @@ import pulsarbat as pb
 from harness.common import qlit, zlit, listlit
 from harness import exact as X
 
-VFILES = ['Model/Polyco.v', 'Proofs/PolycoProofs.v', 'Gen/GenPolyco.v', 'Proofs/PolycoGen.v', 'Props/C08.v']
+VFILES = ['Model/Polyco.v', 'Proofs/PolycoProofs.v', 'Gen/GenPolyco.v', 'Proofs/PolycoGen.v', 'Model/PolycoTimeAt.v', 'Proofs/PolycoTimeAtProofs.v',
+          'Proofs/PolycoTimeAtGen.v', 'Props/C08.v']
 TOL = Fr(1, 10 ** 8)
 
 HEADER = '''From Coq Require Import ZArith QArith Qabs List Bool. Import ListNotations.
-From PB Require Import Model.Polyco.
+From PB Require Import Model.Polyco Model.PolycoTimeAt.
 Definition R (tm sp : Q) (ri : Z) (rf f0 : Q) (cs : list Q) : raw_entry :=
   {| r_tmid := tm; r_span := sp; r_rint := ri; r_rfrac := rf; r_f0 := f0; r_coeffs := cs |}.
 Definition eps : Q := 1 # 1000.
@@ -37,6 +38,15 @@ Definition chk_phasepol (raws : option (list entry)) (t tol : Q) (iref : Z) (ico
   with_pred raws (fun es => match phasepol eps es t with
     | Some (cs, ref) => if (ref =? iref)%Z && forallb (fun x => close tol (peval cs x) (peval icoef x)) probes then 0%Z else 1%Z
     | None => 2%Z end).
+(* time_at: the range check passes in the model and the first guess is the TMID the implementation handed to the root finder *)
+Definition chk_time_at_guess (raws : option (list entry)) (ph tol : Q) (iguess : Q) : Z :=
+  with_pred raws (fun es => match ta_check eps es (intervals eps es) ph, ta_guess eps es ph with
+    | Some true, Some g => if close tol g iguess then 0%Z else 1%Z
+    | Some false, _ => 2%Z
+    | _, _ => 3%Z end).
+(* a phase the implementation refused: the model's range check is false too *)
+Definition chk_time_at_refused (raws : option (list entry)) (ph : Q) : Z :=
+  with_pred raws (fun es => match ta_check eps es (intervals eps es) ph with Some false => 0%Z | Some true => 1%Z | None => 3%Z end).
 '''
 
 
@@ -334,7 +344,26 @@ def run(ctx):
                 if rng.random() < 0.5 and abs(off) < 0.9 * float(half):
                     try:
                         ph = p(times)
-                        tb = p.time_at(ph)
+                        import scipy.optimize as _so
+                        seen_guess, _orig = {}, _so.root_scalar
+
+                        def _spy(func, *a_, **k_):
+                            try:
+                                seen_guess['g'] = dict(zip(func.__code__.co_freevars, [c_.cell_contents for c_ in func.__closure__])).get('guess')
+                            except Exception:
+                                pass
+                            return _orig(func, *a_, **k_)
+                        _so.root_scalar = _spy
+                        try:
+                            tb = p.time_at(ph)
+                        finally:
+                            _so.root_scalar = _orig
+                        if times.isscalar and seen_guess.get('g') is not None:
+                            # the first guess against the model (the requested phase is more than 5 % of a span away from every span end,
+                            # so float noise in ph_end cannot move the searchsorted position)
+                            ctx.count('time_at_guess_compared')
+                            add(f'chk_time_at_guess {raws} {qlit(phase_exact(ph))} (1 # 1000000) {qlit(X.sec(seen_guess["g"]) - t0s)}',
+                                dict(inp, op='time_at_guess'), str(seen_guess['g'].mjd), 'time_at_guess')
                         back = phase_exact(p(tb))
                         if abs(back - phase_exact(ph)) > TOL:
                             ctx.fail('time_at_does_not_invert', inp, impl=float(back - phase_exact(ph)))
@@ -347,7 +376,7 @@ def run(ctx):
             p.time_at(lo - 10.0)
             ctx.fail('time_at_outside_accepted', inp0)
         except ValueError:
-            pass
+            add(f'chk_time_at_refused {raws} {qlit(phase_exact(lo) - 10)}', dict(inp0, op='time_at_refused'), 'ValueError', 'time_at_refused')
         except Exception as ex:
             ctx.fail('time_at_outside_wrong_error', inp0, impl=repr(ex))
 
